@@ -190,6 +190,19 @@ class PathFacts:
                 return
             self.iv[x] = self.iv.get(x, IntervalSet()).intersect(s)
             self._closed = False
+            # |y| op c, written y.unsigned_abs() / y.abs(): a fact about y itself
+            xs = x
+            while xs[0] == 'cast' and len(xs) > 2:
+                xs = xs[2]
+            if xs[0] == 'call' and xs[2] and xs[1].split('::')[-1] in ('unsigned_abs', 'abs'):
+                y = _unref(xs[2][0])
+                m = self.iv[x].intersect(IntervalSet([(0, INF)]))
+                if not m.empty():
+                    parts = []
+                    for (lo_, hi_) in m.ivs:
+                        parts.append((-hi_, -lo_))
+                        parts.append((lo_, hi_))
+                    self.iv[y] = self.iv.get(y, IntervalSet()).intersect(IntervalSet(parts))
         elif len(d) == 2:
             items = sorted(d.items(), key=lambda kv: -kv[1])
             (x, kx), (y, ky) = items
